@@ -118,6 +118,7 @@ type RunOpts struct {
 	SkipPost      bool
 	FreshBase     int
 	InlineAll     bool
+	ConcreteRet   map[string][]Value
 }
 
 // RunFunc symbolically executes pkg.key under its contract and collects obligations.
@@ -149,6 +150,7 @@ func (w *World) RunFunc(pkg, key string, opts RunOpts) (fr *FuncRun) {
 	vc.fresh = opts.FreshBase
 	ex := newExec(vc, fn, nil)
 	ex.inlineAll = opts.InlineAll
+	ex.concreteRet = opts.ConcreteRet
 	ex.forceInline = opts.ForceInline
 	ex.appendMustFit = opts.AppendMustFit
 	ex.allocFilter = opts.AllocFilter
